@@ -71,8 +71,18 @@ impl<'a> fmt::Display for Pieces<'a> {
     }
 }
 
+thread_local! {
+    /// which representatives the placeholders stand for in the case at hand (a non-ASCII letter and a non-ASCII digit
+    /// of 2 or 3 bytes each)
+    static SUB_VARIANT: std::cell::Cell<usize> = std::cell::Cell::new(0);
+}
+pub fn set_sub_variant(v: usize) {
+    SUB_VARIANT.with(|x| x.set(v));
+}
 pub fn sub(s: &str) -> String {
-    s.replace('~', "\u{e9}").replace('^', "\u{663}")
+    let v = SUB_VARIANT.with(|x| x.get());
+    // é / 世 are letters (alphabetic, not alphanumeric digits), U+0663 / U+0966 are decimal digits outside ASCII
+    s.replace('~', ["\u{e9}", "\u{4e16}"][v % 2]).replace('^', ["\u{663}", "\u{966}"][(v / 2) % 2])
 }
 fn seq_str(v: &Value) -> Option<String> {
     let a = v.as_array()?;
@@ -395,12 +405,15 @@ pub fn main(args: &[String]) {
     let meta = rows.iter().find(|r| r["meta"] == "rec").expect("rec meta");
     let rec = rec_from(&meta["rec"]);
     let cases: Vec<&Value> = rows.iter().filter(|r| r.get("meta").is_none()).collect();
+    let _ = &rec;
     let res = par_map(&cases, threads(), |i, c| {
+        // the record is rebuilt for every case with the representatives of that case
+        set_sub_variant(mix(i) / 7);
         let r = match c.get("rec") {
-            Some(v) if !v.is_null() => Some(rec_from(v)),
-            _ => None,
+            Some(v) if !v.is_null() => rec_from(v),
+            _ => rec_from(&meta["rec"]),
         };
-        check_case(c, r.as_ref().unwrap_or(&rec), mix(i)).into_iter().map(|m| json!({"case": i, "input": c["input"], "expected": c["out"], "mismatch": m})).collect()
+        check_case(c, &r, mix(i)).into_iter().map(|m| json!({"case": i, "input": c["input"], "expected": c["out"], "mismatch": m})).collect()
     });
     write_ndjson(&args[1], &res);
     println!("{}", json!({"cases": cases.len(), "mismatches": res.len()}));
